@@ -641,7 +641,24 @@ func sameLoad(a, b ssa.Value) bool {
 	}
 	ua, ok1 := a.(*ssa.UnOp)
 	ub, ok2 := b.(*ssa.UnOp)
-	return ok1 && ok2 && ua.X == ub.X
+	if !ok1 || !ok2 {
+		return false
+	}
+	if ua.X == ub.X {
+		return true
+	}
+	fa, ok1 := ua.X.(*ssa.FieldAddr)
+	fb, ok2 := ub.X.(*ssa.FieldAddr)
+	if !ok1 || !ok2 || fa.Field != fb.Field {
+		return false
+	}
+	if fa.X == fb.X {
+		return true
+	}
+	// the base is itself loaded from the same variable (a receiver captured by a closure lives in a cell)
+	la, ok1 := fa.X.(*ssa.UnOp)
+	lb, ok2 := fb.X.(*ssa.UnOp)
+	return ok1 && ok2 && la.X == lb.X
 }
 
 // RuleRxGroups: constant capture indices exist and are guarded.
